@@ -1,4 +1,7 @@
-use samlang_ast::mir::{Expression, GenenalLoopVariable, Statement, VariableName};
+use samlang_ast::{
+  hir::BinaryOperator,
+  mir::{Expression, GenenalLoopVariable, Statement, VariableName},
+};
 use samlang_heap::PStr;
 use std::collections::HashSet;
 
@@ -39,8 +42,11 @@ pub(super) fn optimize(
           inner_stmts.push(stmt);
         }
       }
+      // A division is not hoisted: in front of the loop it would also run (and trap) when the loop body never does.
       Statement::Binary(b) => {
-        if expression_is_loop_invariant(&b.e1, &non_loop_invariant_variables)
+        if b.operator != BinaryOperator::DIV
+          && b.operator != BinaryOperator::MOD
+          && expression_is_loop_invariant(&b.e1, &non_loop_invariant_variables)
           && expression_is_loop_invariant(&b.e2, &non_loop_invariant_variables)
         {
           hoisted_stmts.push(stmt);
